@@ -17,7 +17,8 @@ def events(ctx):
         over = rng.random() < 0.05
         yield record("pdu.rt", {"kind": "filedata", "cfg": cfg, "p": rnd_params(rng, "filedata", cfg["large"], over),
                                 "sfx": [] if rng.random() < 0.7 else rnd_bytes(rng, rng.randrange(1, 6))})
-    for n in ctx.q([4096], [4096, 30000, 65535 - 8 - 2 - 64, 65535 - 4, 65535 - 3]):
+    # data field length at the 16-bit limit: 65 535 must pack, 65 536 must be refused (never a wrapped length field)
+    for n in ctx.q([4096, 65535 - 4, 65535 - 3], [4096, 30000, 65535 - 8 - 2 - 64, 65535 - 5, 65535 - 4, 65535 - 3, 65535 - 2]):
         for crc in (0, 1):
             cfg = rnd_cfg(rng, crc=crc, large=0)
             yield record("pdu.rt", {"kind": "filedata", "cfg": cfg,
